@@ -478,6 +478,36 @@ func (k *c06Checker) fold(op string, apply func(align.SeqBag), in, want rows) {
 	} else {
 		k.c.Outcome(op + ":folded")
 	}
+	// a row added after a conversion is converted by the next one: the first row as given, and its case
+	// inverted, are added under new names and the same conversion applied again
+	if len(in) == 0 {
+		return
+	}
+	swapped := c06MapBytes(in[0].Seq, func(b byte) byte {
+		if 'a' <= b && b <= 'z' {
+			return b - 32
+		}
+		if 'A' <= b && b <= 'Z' {
+			return b + 32
+		}
+		return b
+	})
+	var err1, err2 error
+	if !k.call(op, func() {
+		err1 = sb.AddSequence("zz_added_1", in[0].Seq, "")
+		err2 = sb.AddSequence("zz_added_2", swapped, "")
+		apply(sb)
+	}) {
+		return
+	}
+	if err1 != nil || err2 != nil {
+		k.viol(op, "row-added-after-conversion/refused", fmt.Sprint(err1, err2))
+		return
+	}
+	want2 := append(want.clone(), row{"zz_added_1", want[0].Seq}, row{"zz_added_2", want[0].Seq})
+	if clause, desc := k.diff(sb, want2, nil); clause != "" {
+		k.viol(op, "row-added-after-conversion/"+clause, desc)
+	}
 }
 
 // hiBytes: case folding and un-aligning of sequence sets that hold bytes >= 0x80 (not residues of any
@@ -624,10 +654,31 @@ func (k *c06Checker) bagOps() {
 			} else if !k.call("Unalign", func() { again = sb.Unalign() }) {
 			} else if clause, desc := k.diff(again, un, nil); clause != "" {
 				k.viol("Unalign", "second-call/"+clause, desc)
-			} else if sameRows(in, un) {
-				k.c.Outcome("Unalign:no-gap")
 			} else {
-				k.c.Outcome("Unalign:gaps-removed")
+				if sameRows(in, un) {
+					k.c.Outcome("Unalign:no-gap")
+				} else {
+					k.c.Outcome("Unalign:gaps-removed")
+				}
+				// the un-aligned set owns its rows: case folding and reverse-complementing one of the two
+				// objects afterwards must not show in the other one
+				if ascii {
+					if k.call("Unalign+fold-result", func() { unaligned.ToLower() }) {
+						if clause, desc := k.diff(sb, in, nil); clause != "" {
+							k.viol("Unalign", "result-shares-rows-with-source/ToLower/"+clause, "the alignment Unalign was called on, after ToLower on the un-aligned set: "+desc)
+						}
+					}
+					if k.call("Unalign+fold-result", func() { unaligned.ToUpper() }) {
+						if clause, desc := k.diff(sb, in, nil); clause != "" {
+							k.viol("Unalign", "result-shares-rows-with-source/ToUpper/"+clause, "the alignment Unalign was called on, after ToUpper on the un-aligned set: "+desc)
+						}
+					}
+					if k.call("Unalign+fold-source", func() { sb.ToLower(); sb.ToUpper(); _ = sb.ReverseComplement() }) {
+						if clause, desc := k.diff(again, un, nil); clause != "" {
+							k.viol("Unalign", "source-shares-rows-with-result/"+clause, "the set un-aligned before, after ToLower, ToUpper, ReverseComplement on the alignment: "+desc)
+						}
+					}
+				}
 			}
 		}
 	}
@@ -740,8 +791,8 @@ func init() {
 	mc.Register(&mc.Prop{
 		ID:    "C06",
 		Level: "exploration",
-		Rule: cliStreamRule[1:] + " " + "(on every case also: two operations on one object - ToUpper/ToLower then ReverseComplement / ReverseComplementSequences(one row) / Unalign, and the strand operation first - against the composed model; the alignment Unalign was called on is unchanged and a second Unalign gives the same rows; every observed row is the same by index, by name and by iteration;) (sequence sets of 1-2 rows, total length <= 4, over {A,c,-,0xE9,0xC3,0xA9} with at least one byte >= 0x80: ToUpper/ToLower/Unalign keep row lengths, fold the 7-bit bytes exactly and are idempotent;) bounded-exhaustive enumeration; on every case: ReverseComplement and ReverseComplementSequences for every subset of {row names} + {one unknown name}, each applied twice (involution), " +
-			"ToUpper and ToLower each applied twice (idempotence), Unalign; results compared row by row (names, order, residues, Length()) with the IUPAC complement derived from base sets. Cases: " +
+		Rule: cliStreamRule[1:] + " " + "(on every case also: two operations on one object - ToUpper/ToLower then ReverseComplement / ReverseComplementSequences(one row) / Unalign, and the strand operation first - against the composed model; the alignment Unalign was called on is unchanged, a second Unalign gives the same rows, and case folding / reverse-complementing the un-aligned set or the alignment afterwards does not show in the other object; every observed row is the same by index, by name and by iteration;) (sequence sets of 1-2 rows, total length <= 4, over {A,c,-,0xE9,0xC3,0xA9} with at least one byte >= 0x80: ToUpper/ToLower/Unalign keep row lengths, fold the 7-bit bytes exactly and are idempotent;) bounded-exhaustive enumeration; on every case: ReverseComplement and ReverseComplementSequences for every subset of {row names} + {one unknown name}, each applied twice (involution), " +
+			"ToUpper and ToLower each applied twice (idempotence) and once more after the first row, as given and with its case inverted, was added under two new names (rows added after a conversion are converted by the next one), Unalign; results compared row by row (names, order, residues, Length()) with the IUPAC complement derived from base sets. Cases: " +
 			"(i) all 256 byte values as a 1x1 alignment with the alphabet forced to nucleotide, also through align.Complement/Reverse and Sequence.Complement/Reverse; " +
 			"(ii) every single row of length 0..4 over the 35 symbols ACGTRYSWKMBDHVN acgtryswkmbdhvn - . * U u and of length 5..6 (quick) / 5..7 (thorough) over {A,c,K,m,B,-,.,*}, also through the Sequence-level functions; " +
 			"(iii) every 2-row alignment of length 1..3 and every 3-row alignment of length 1..2 over {A,c,K,m,B,-,.,*}; thorough adds every 2-row alignment of length 4 and every 3-row alignment of length 3 over {A,c,K,m,-}; " +
